@@ -209,7 +209,7 @@ theorem no_false_success (lvl : Int) (sk : Sink) (s0 : BzW) (h0 : newBzW lvl sk 
   (exact_run ops s0 (exact_new lvl sk s0 h0).1).2.2.2
 
 /-- Close changes neither the ghost record of accepted data nor the level. -/
-theorem close_frame (s : BzW) : (s.close).1.acc = s.acc ∧ (s.close).1.base = s.base ∧ (s.close).1.level = s.level := by
+theorem close_keeps (s : BzW) : (s.close).1.acc = s.acc ∧ (s.close).1.base = s.base ∧ (s.close).1.level = s.level := by
   rw [close_eq]
   by_cases hd : s.done = true
   · rw [if_pos hd]; exact ⟨rfl, rfl, rfl⟩
@@ -237,7 +237,7 @@ theorem write_level (s : BzW) (d : List UInt8) : (s.write d).1.level = s.level :
 theorem step_level (s : BzW) (op : BzOp) : (s.step op).1.level = s.level := by
   cases op with
   | write d => exact write_level s d
-  | close => exact (close_frame s).2.2
+  | close => exact (close_keeps s).2.2
   | reset sk => rfl
 
 theorem run_level : ∀ (ops : List BzOp) (s : BzW), (BzW.run s ops).1.level = s.level
@@ -275,7 +275,7 @@ theorem close_nil_complete (s : BzW) (h : ExactInv s) (hc : (s.close).2 = none) 
           · rw [if_pos h2] at hc; exact absurd hc h2
           · rw [if_neg h2]
   obtain ⟨out, o1, o2⟩ := (exact_close s h).2.2.2 hdone
-  have hacc := close_frame s
+  have hacc := close_keeps s
   rw [hacc.1, hacc.2.2] at o1
   rw [hacc.2.1] at o2
   exact ⟨out, o1, o2⟩
